@@ -11,6 +11,7 @@
 //!          spawn k-1, then spawn k ('-' = spawn again unchanged); `x<n>` in stage 0 = n spawns in all (appends '-' stages);
 //!          `fr<i>` in stage 0 = the fault list applies to spawn i (default 0), every other spawn runs fault-free.
 //!          Every spawn is measured on its own; the records are joined with ` ;; `.
+//! `c13 --ids`: identity-state scenarios, one per line, see ids.rs.
 //! `c13 --envseq`: environment-builder call sequences, one per line, see envseq.rs (this build: no `start` feature).
 //! output (per spawn): res=<ok|err:N|err:nocode> returned=<0|1> ctrace=<..> status=<n|-> status2=<n|-> waits=<n> img=<ok|none|bad:..>
 //!         seen=<argv ids/env ids> sio=<what fd 0,1,2 of the image are> pipes=<which of Child::stdin/stdout/stderr are Some>
@@ -21,6 +22,8 @@ mod casekit;
 extern crate alloc;
 /// the environment-builder sequences (shared with the no-libc `start` probe harness-nolibc/c13probe)
 mod envseq;
+/// the caller's identity state x the ids requested (forked helper per scenario)
+mod ids;
 use casekit as kit;
 use tiny_std::process::{Command, Stdio};
 use tiny_std::unix::fd::AsRawFd;
@@ -533,6 +536,14 @@ fn main() {
     }
     if args.len() == 4 && args[1] == "--case" {
         case_main(&args[2], &args[3]);
+        return;
+    }
+    if args.len() == 2 && args[1] == "--ids" {
+        use std::io::BufRead;
+        std::panic::set_hook(Box::new(|_| {}));
+        for line in std::io::stdin().lock().lines() {
+            println!("{}", ids::run_line(line.unwrap_or_default().trim()));
+        }
         return;
     }
     if args.len() == 2 && args[1] == "--envseq" {
